@@ -3721,7 +3721,11 @@ let split_step st line =
     sstate -> char list list -> char list list * exn option **)
 
 let rec split_lines st = function
-| [] -> ([], (if Nat.eqb st.unmatched O then None else Some ParserError))
+| [] ->
+  ([],
+    (if negb st.complete
+     then Some ParserError
+     else if Nat.eqb st.unmatched O then None else Some ParserError))
 | line :: rest ->
   (match split_step st line with
    | StCont st' -> split_lines st' rest
